@@ -17,6 +17,10 @@ from __future__ import annotations
 import importlib
 import itertools
 import json
+import os
+import random
+import re
+import time
 
 from . import bexp
 from .common import Ctx, Result
@@ -25,7 +29,10 @@ LEVEL = "proof"
 
 TRANSFORMERS = ["remove_ITE", "remove_Implies", "transform_or2xor", "transform_or2and", "remove_obvious_expr"]
 LIST_STEPS = ["merge_expressions", "apply_cse"]
-MAX_FREE = 9
+FULL_MAX = 10  # up to this many free symbols the oracle enumerates every assignment
+N_SAMPLED = 160  # beyond: this many pseudo-random assignments on top of the structured ones (see rows_for)
+LADDER = (1, 8, 64, 300, 600, 1200, 2500)  # sizes (operations) of bound expressions in the size-threshold slice
+BIG_OPS = 700  # lists with more operations than this go through a reduced set of steps (see size_slice)
 
 
 # ----------------------------------------------------------------------------- oracle (own evaluator)
@@ -69,13 +76,90 @@ def seq_eval(dj, env):
     return env
 
 
-def ret_table(dj, inputs, rets):
-    rows = []
-    for k in range(2 ** len(inputs)):
-        env = {n: bool((k >> i) & 1) for i, n in enumerate(inputs)}
-        env = seq_eval(dj, env)
-        rows.append("".join("1" if env.get(r, False) else "0" for r in rets))
-    return "".join(rows)
+def rows_for(inputs):
+    """None = every assignment (row k: input i = bit i of k); for more than FULL_MAX inputs a fixed sample of
+    assignment numbers: all-false, all-true, every one-hot and one-cold row and N_SAMPLED pseudo-random rows
+    (a function of the number of inputs only)"""
+    n = len(inputs)
+    if n <= FULL_MAX:
+        return None
+    rnd = random.Random(f"c04-rows-{n}")
+    full = (1 << n) - 1
+    rows = [0, full] + [1 << i for i in range(n)] + [full ^ (1 << i) for i in range(n)]
+    rows += [rnd.getrandbits(n) for _ in range(N_SAMPLED)]
+    return rows
+
+
+def eval_bits(j, env, full):
+    """the reference evaluation on all rows at once: a value is an integer whose bit r is the value in row r
+    (same semantics as bexp.eval_json; an unbound symbol is false)"""
+    t = j[0]
+    if t == "sym":
+        return env.get(j[1], 0)
+    if t == "tt":
+        return full
+    if t == "ff":
+        return 0
+    if t == "not":
+        return full ^ eval_bits(j[1], env, full)
+    if t == "and":
+        r = full
+        for x in j[1:]:
+            r &= eval_bits(x, env, full)
+        return r
+    if t == "or":
+        r = 0
+        for x in j[1:]:
+            r |= eval_bits(x, env, full)
+        return r
+    if t == "xor":
+        r = 0
+        for x in j[1:]:
+            r ^= eval_bits(x, env, full)
+        return r
+    if t == "ite":
+        c = eval_bits(j[1], env, full)
+        return (c & eval_bits(j[2], env, full)) | ((full ^ c) & eval_bits(j[3], env, full))
+    if t == "imp":
+        return (full ^ eval_bits(j[1], env, full)) | eval_bits(j[2], env, full)
+    raise ValueError(t)
+
+
+_MASKS = {}
+
+
+def input_masks(n, rows):
+    """(number of rows, [mask of input i]) for the assignment numbers `rows` (None = 0 .. 2^n - 1)"""
+    key = (n, None if rows is None else tuple(rows))
+    if key not in _MASKS:
+        ks = list(range(2 ** n)) if rows is None else list(rows)
+        _MASKS[key] = (len(ks), [sum(1 << r for r, k in enumerate(ks) if (k >> i) & 1) for i in range(n)])
+    return _MASKS[key]
+
+
+def seq_eval_bits(dj, inputs, rows=None):
+    """(number of rows, name -> value on every row) after the sequential evaluation of the list"""
+    nrows, masks = input_masks(len(inputs), rows)
+    full = (1 << nrows) - 1
+    env = dict(zip(inputs, masks))
+    for n, e in dj:
+        env[n] = eval_bits(e, env, full)
+    return nrows, env
+
+
+def ret_table(dj, inputs, rets, rows=None):
+    """row after row (row k: input i = bit i of the assignment number), one char per symbol of `rets`"""
+    nrows, env = seq_eval_bits(dj, inputs, rows)
+    cols = [env.get(r, 0) for r in rets]
+    out = "".join("1" if (c >> r) & 1 else "0" for r in range(nrows) for c in cols)
+    if nrows <= 16:  # the two evaluators of the harness against each other (and both against Lean's, `c04.tt`)
+        slow = []
+        for k in (range(2 ** len(inputs)) if rows is None else rows):
+            e1 = seq_eval(dj, {n: bool((k >> i) & 1) for i, n in enumerate(inputs)})
+            slow.append("".join("1" if e1.get(r, False) else "0" for r in rets))
+        if "".join(slow) != out:
+            raise RuntimeError("the harness's two evaluators disagree on " + json.dumps(dj)[:400])
+    return out
 
 
 def check_property(before, after):
@@ -88,14 +172,26 @@ def check_property(before, after):
     if new:
         return "a free symbol was introduced", dict(new=new)
     rets = sorted(set(rb))
-    tb, ta = ret_table(before, fb, rets), ret_table(after, fb, rets)
+    rows = rows_for(fb)
+    tb, ta = ret_table(before, fb, rets, rows), ret_table(after, fb, rets, rows)
     if tb != ta:
         k = next(i for i in range(len(tb)) if tb[i] != ta[i])
         row, col = divmod(k, max(1, len(rets)))
+        if rows is not None:
+            row = rows[row]
         env = {n: bool((row >> i) & 1) for i, n in enumerate(fb)}
         return "a return symbol changed its boolean function", dict(
             assignment=env, symbol=rets[col], before=tb[k], after=ta[k])
     return None
+
+
+def ops_json(j):
+    """number of operations of an expression (n-ary node = n-1, Not / ITE / Implies = 1): the harness's own measure"""
+    t = j[0]
+    if t in ("tt", "ff", "sym"):
+        return 0
+    own = len(j) - 2 if t in ("and", "or", "xor") else 1
+    return max(own, 0) + sum(ops_json(x) for x in j[1:])
 
 
 def expr_equiv(ej_in, ej_out):
@@ -103,9 +199,11 @@ def expr_equiv(ej_in, ej_out):
     si, so = bexp.syms_json(ej_in), bexp.syms_json(ej_out)
     if any(v not in si for v in so):
         return False
-    if len(si) > 12:
-        return True
-    return bexp.truth_table(si, [ej_in]) == bexp.truth_table(si, [ej_out])
+    if len(si) <= 4:
+        return bexp.truth_table(si, [ej_in]) == bexp.truth_table(si, [ej_out])
+    nrows, env = seq_eval_bits([], si, rows_for(si))
+    full = (1 << nrows) - 1
+    return eval_bits(ej_in, env, full) == eval_bits(ej_out, env, full)
 
 
 # ----------------------------------------------------------------------------- the real code, observed
@@ -313,6 +411,317 @@ def systematic(B, S):
     return lists
 
 
+# ----------------------------------------------------------------------------- size thresholds x re-binding
+def _lit(rnd, B, leaves):
+    x = rnd.choice(leaves)
+    return B.Not(x) if rnd.random() < 0.25 else x
+
+
+def _gadget(rnd, B, leaves):
+    """a small rule-shaped sub-expression (ITE / Implies / xnor pattern / n-ary Or): what the transformers rewrite"""
+    l = lambda: _lit(rnd, B, leaves)  # noqa
+    k = rnd.randrange(6)
+    if k == 0:
+        return B.ITE(l(), l(), l())
+    if k == 1:
+        return B.Implies(l(), l())
+    if k == 2:
+        x, y = l(), l()
+        return B.Or(B.And(x, y), B.And(B.Not(x), B.Not(y)))
+    if k == 3:
+        return B.Or(l(), l(), l())
+    if k == 4:
+        x, y, z = l(), l(), l()
+        return B.Or(B.And(x, y, z), B.And(B.Not(x), B.Not(y), B.Not(z)))
+    return B.Xor(l(), l(), l())
+
+
+def _tree(rnd, B, leaves, n, rich):
+    if n <= 0:
+        return _lit(rnd, B, leaves)
+    if rich and n <= 6 and rnd.random() < 0.7:
+        return _gadget(rnd, B, leaves)
+    op = rnd.choice((B.Xor, B.And, B.Or))
+    left = (n - 1) // 2
+    return op(_tree(rnd, B, leaves, left, rich), _tree(rnd, B, leaves, n - 1 - left, rich))
+
+
+def sized_expr(key, B, leaves, target, rich=False):
+    """a balanced And/Or/Xor tree (depth ~ log2 size; `rich`: rule-shaped gadgets at the leaves), a function of
+    `key` only, of at least `target` operations after sympy's constructors - or the biggest of a dozen attempts
+    when the leaves do not allow that (one or two variables with `rich`: most gadgets collapse)"""
+    n, best, best_ops = target, None, -1
+    for attempt in range(12):
+        e = _tree(random.Random(f"c04-{key}-{attempt}"), B, leaves, n, rich)
+        got = ops_json(bexp.to_json(e))
+        if got > best_ops:
+            best, best_ops = e, got
+        if got >= target:
+            return e
+        n = min(max(n + 1, n * target // max(got, 1) + 1), 4 * target + 8)
+    return best
+
+
+def rebind_list(B, S, key, sizes, nvars=6, selfref=(), rich=False, reader=0):
+    """`t` bound len(sizes) times to expressions of these sizes; a return reads `t` after every binding, the last
+    one through a second intermediate (all readers share the sub-expression `t & <first variable>`, so a common-
+    subexpression step sees the same text before and after a re-binding); bindings listed in `selfref` also read
+    the previous value of `t`; `reader`: the size of the last reader (0 = tiny)"""
+    vs = [S(x) for x in "abcdefghijklmnop"[:nvars]]
+    t, u = S("t"), S("u")
+    out = []
+    for i, sz in enumerate(sizes):
+        e = sized_expr(f"{key}-{i}", B, vs, sz, rich)
+        if i in selfref and i > 0:
+            e = B.Xor(t, e)
+        out.append((t, e))
+        if i == len(sizes) - 1:
+            out.append((u, B.Or(B.And(t, vs[0]), vs[-1])))
+            last = B.Xor(u, vs[1 % nvars])
+            if reader:
+                last = B.Xor(last, B.And(t, sized_expr(f"{key}-reader", B, vs, reader, rich)))
+            out.append((S(f"_ret.{i}"), last))
+        else:
+            out.append((S(f"_ret.{i}"), B.Xor(B.And(t, vs[0]), vs[(i + 1) % nvars])))
+    return out
+
+
+def accumulate_list(B, S, key, k, nvars=4):
+    """`t` bound k+1 times, every binding reads the previous value twice: each definition is tiny, the inlined
+    expression doubles with every binding (about 3 * 2^k operations)"""
+    rnd = random.Random(f"c04-acc-{key}")
+    vs = [S(x) for x in "abcdefgh"[:nvars]]
+    t = S("t")
+    out = [(t, _lit(rnd, B, vs))]
+    for i in range(k):
+        x, y = _lit(rnd, B, vs), _lit(rnd, B, vs)
+        e = [B.And(B.Xor(t, x), B.Or(t, y)), B.Xor(B.And(t, x), B.Or(t, y)), B.Or(B.And(t, x), B.Xor(t, y))][rnd.randrange(3)]
+        out.append((t, e))
+        if i + 1 == k // 2 and k >= 2:
+            out.append((S("_ret.0"), B.Xor(t, _lit(rnd, B, vs))))
+    out.append((S("_ret.1"), B.Xor(t, _lit(rnd, B, vs))))
+    return out
+
+
+def many_defs_list(B, S, key, n, mode, chain=12, nvars=5):
+    """exactly n definitions.  `distinct`: n-1 intermediates with names of their own in chains of `chain`
+    definitions (each reads its predecessor), one return that reads every chain end.  `pool`: four names bound
+    again and again (a chain re-binds one name, reading its previous value, and ends in a return of its own that
+    also reads the name the chain before it used)"""
+    rnd = random.Random(f"c04-nd-{key}")
+    vs = [S(x) for x in "abcdefgh"[:nvars]]
+    lit = lambda: _lit(rnd, B, vs)  # noqa
+
+    def first():
+        return rnd.choice((B.And, B.Xor, B.Or))(lit(), lit())
+
+    def step(prev):
+        k = rnd.random()
+        if k < 0.3:
+            return B.And(prev, lit())
+        if k < 0.6:
+            return B.Xor(prev, lit())
+        if k < 0.86:
+            return B.Or(prev, lit())
+        if k < 0.93:
+            return B.ITE(lit(), prev, lit())
+        return B.Implies(prev, lit())
+
+    out = []
+    if mode == "distinct":
+        ends, prev = [], None
+        for i in range(n - 1):
+            nm = S(f"t{i}")
+            if i % chain == 0:
+                if prev is not None:
+                    ends.append(prev)
+                e = first()
+            else:
+                e = step(prev)
+            out.append((nm, e))
+            prev = nm
+        if prev is not None:
+            ends.append(prev)
+        out.append((S("_ret"), B.Xor(*ends) if ends else first()))
+        return out
+    pool = [S(x) for x in ("t", "u", "v", "w")]
+    c = 0
+    while len(out) < n:
+        nm = pool[c % 4]
+        length = min(chain, n - len(out))
+        if length >= 2:
+            out.append((nm, first()))
+            for _ in range(length - 2):
+                out.append((nm, step(nm)))
+            other = pool[(c - 1) % 4] if c > 0 else lit()
+            out.append((S(f"_ret.{c}"), B.Xor(nm, other)))
+        else:
+            out.append((S(f"_ret.{c}"), B.Xor(pool[(c - 1) % 4], lit()) if c > 0 else first()))
+        c += 1
+    return out
+
+
+def nvars_list(B, S, key, nv, big=0):
+    """a name bound twice to mixes of all nv variables (the second binding of `big` operations when given), a
+    reader after each"""
+    rnd = random.Random(f"c04-nv-{key}-{nv}")
+    vs = [S(f"v{i}") for i in range(nv)]
+
+    def mix(order):
+        e = order[0]
+        for x in order[1:]:
+            e = rnd.choice((B.Xor, B.And, B.Or, B.Xor))(e, B.Not(x) if rnd.random() < 0.25 else x)
+        return e
+
+    t, u = S("t"), S("u")
+    e2 = sized_expr(f"nv-{key}-{nv}", B, vs, big) if big else mix(vs[::-1])
+    if nv % 2:
+        e2 = B.Xor(t, e2)
+    return [(t, mix(vs)), (S("_ret.0"), B.Xor(t, vs[0])), (t, e2), (u, B.Or(t, B.Not(vs[-1]))),
+            (S("_ret.1"), B.Xor(u, vs[nv // 2]))]
+
+
+# front-end right-hand sides by width, with the size of the comparison they translate to (operations, measured)
+FE_SIZED = {
+    2: [("a[0] and b[0]", 1), ("(a * a) > b", 8), ("(a * b) >= (b * a + 1)", 96)],
+    3: [("a > b", 13), ("(a - b) > (b + a)", 68), ("(a * b + a) > b", 266), ("(a * a) > (b * b)", 578),
+        ("(a * b) > (b * b + a)", 1197)],
+    4: [("a > b", 21), ("(a + b + a + b) > a", 240), ("(a * b) > (a + b)", 1069), ("(a * b + a) > b", 2159)],
+}
+FE_SHAPES = {
+    # the variable c is assigned two or three times; the rewriter's temporaries (__c) are re-bound with it
+    "2-read": "    c = {0}\n    c = c != ({1})\n    return c",
+    "2-over": "    c = {0}\n    d = c\n    c = {1}\n    return c != d",
+    "3-last": "    c = {0}\n    c = not c\n    c = c != ({1})\n    return c",
+    "3-mid": "    c = {0}\n    c = c != ({1})\n    c = not c\n    return c",
+}
+
+
+def fe_program(name, w, shape, e1, e2):
+    return f"def {name}(a: Qint[{w}], b: Qint[{w}]) -> bool:\n" + FE_SHAPES[shape].format(e1, e2)
+
+
+def size_programs(thorough):
+    """front-end programs of the systematic size slice: (name, source)"""
+    out = []
+    for w, es in FE_SIZED.items():
+        for i, (e1, _) in enumerate(es):
+            for j, (e2, _) in enumerate(es):
+                if not thorough and (w == 4 and (i, j) not in ((0, 2), (2, 1), (0, 3))
+                                     or w == 3 and not (abs(i - j) <= 1 or abs(i - j) == len(es) - 1)):
+                    continue
+                out.append((f"sz{w}_{i}_{j}", fe_program(f"sz{w}_{i}_{j}", w, "2-read" if (i + j) % 2 == 0 else "2-over", e1, e2)))
+        for j, (e2, _) in enumerate(es):
+            if w == 4 and not thorough and j != 2:
+                continue
+            for shape in ("3-last", "3-mid"):
+                nm = f"sz{w}_t{j}_{shape[2:]}"
+                out.append((nm, fe_program(nm, w, shape, "a > b", e2)))
+    return out
+
+
+ALL_STEPS = None
+LIST_ONLY = frozenset(["merge_expressions", "apply_cse", "defaultOptimizer"])
+
+
+_LIST_OPS = {}
+
+
+def list_ops(exps):
+    """operations of all right-hand sides of a list (remembered per list object)"""
+    k = id(exps)
+    if k not in _LIST_OPS or _LIST_OPS[k][0] is not exps:
+        _LIST_OPS[k] = (exps, sum(ops_json(bexp.to_json(e)) for _, e in exps))
+    return _LIST_OPS[k][1]
+
+
+def size_slice(B, S, thorough):
+    """the systematic size-threshold x re-binding slice (the same for every seed): (family, list, only, stepwise).
+    Lists of more than BIG_OPS operations where only the list-level steps can tell a re-binding from a fresh name
+    go through merge_expressions, apply_cse and defaultOptimizer; the others through every step and both profiles."""
+    out = []
+
+    def add(fam, exps, list_only_when_big=True):
+        big = list_ops(exps) > BIG_OPS
+        out.append((fam, exps, LIST_ONLY if (big and list_only_when_big) else ALL_STEPS, not big))
+
+    # one definition of every ladder size, rich in rule shapes: every step alone and both profiles
+    for sz in LADDER:
+        add("size1", [(S("_ret"), sized_expr(f"one-{sz}", B, [S(x) for x in "abcdef"], sz, rich=True))], False)
+    # a name bound twice: ordered pairs of ladder sizes (thorough: all 49; quick: equal sizes, the two orders of
+    # every pair of neighbouring rungs - whatever the threshold, one of them straddles it - and the two extremes)
+    for i, s1 in enumerate(LADDER):
+        for j, s2 in enumerate(LADDER):
+            if not thorough and not (abs(i - j) <= 1 or abs(i - j) == len(LADDER) - 1) or (not thorough and i == j == len(LADDER) - 1):
+                continue
+            add("size2", rebind_list(B, S, f"p-{s1}-{s2}", [s1, s2], selfref=(1,) if (i + j) % 3 == 1 else ()))
+    # a name bound twice to tiny expressions, the last reader of every ladder size
+    for sz in LADDER:
+        add("sizeR", rebind_list(B, S, f"rd-{sz}", [1, 8], selfref=(1,) if sz in (64, 1200) else (), reader=sz))
+    # a name bound three times: the six mixed small/big patterns around the gaps of the ladder
+    gaps = list(zip(LADDER, LADDER[1:])) if thorough else [(8, 64), (300, 600)]
+    for lo, hi in gaps:
+        for pat in ("SSB", "SBS", "SBB", "BSS", "BSB", "BBS") + (("SSS", "BBB") if thorough else ()):
+            sizes = [lo if c == "S" else hi for c in pat]
+            add("size3", rebind_list(B, S, f"t-{lo}-{hi}-{pat}", sizes, nvars=5, selfref=(2,) if pat[1] == "B" else (1,)))
+    # a name bound k+1 times, each definition tiny, inlined size doubling
+    for k in (1, 2, 3, 5, 7, 8, 9, 10):
+        add("accum", accumulate_list(B, S, f"k{k}", k))
+    # number of definitions
+    for n in (1, 2, 10, 100, 300):
+        for mode in ("distinct", "pool"):
+            out.append(("ndefs", many_defs_list(B, S, f"{mode}-{n}", n, mode), ALL_STEPS, n <= 100))
+    # number of variables
+    for nv in range(1, 17):
+        add("nvars", nvars_list(B, S, "s", nv))
+    for nv in (7, 11, 16):
+        add("nvars", nvars_list(B, S, "b", nv, big=600))
+    return out
+
+
+def random_size_lists(rng, B, S, thorough):
+    """randomised variants of the size slice, drawn from ctx.rng"""
+    out = []
+
+    def add(fam, exps):
+        big = list_ops(exps) > BIG_OPS
+        out.append((fam, exps, LIST_ONLY if big else ALL_STEPS, not big))
+
+    top = 3000 if thorough else 1500
+    for _ in range(40 if thorough else 6):
+        nb = rng.randint(2, 4)
+        sizes = [max(1, int(round(top ** rng.random()))) for _ in range(nb)]
+        while sum(sizes) > (6000 if thorough else 2500):
+            sizes[sizes.index(max(sizes))] //= 2
+        sr = tuple(i for i in range(1, nb) if rng.random() < 0.4)
+        rd = max(1, int(round(top ** rng.random()))) if rng.random() < 0.3 else 0
+        add("rsize", rebind_list(B, S, f"r{rng.getrandbits(40)}", sizes, nvars=rng.randint(1, 6), selfref=sr,
+                                 rich=rng.random() < 0.3, reader=rd))
+    for _ in range(10 if thorough else 2):
+        add("raccum", accumulate_list(B, S, f"r{rng.getrandbits(40)}", rng.randint(2, 10 if thorough else 9), nvars=rng.randint(1, 5)))
+    for _ in range(12 if thorough else 3):
+        n = rng.randint(1, 300 if thorough else 120)
+        out.append(("rndefs", many_defs_list(B, S, f"r{rng.getrandbits(40)}", n, rng.choice(("distinct", "pool")),
+                                             chain=rng.randint(2, 15), nvars=rng.randint(1, 6)), ALL_STEPS, n <= 100))
+    for _ in range(16 if thorough else 3):
+        nv = rng.randint(1, 16)
+        add("rnvars", nvars_list(B, S, f"r{rng.getrandbits(40)}", nv, big=rng.choice((0, 0, 100, 600))))
+    return out
+
+
+def random_size_programs(rng, thorough):
+    out = []
+    for k in range(16 if thorough else 4):
+        w = rng.choice((2, 3, 3, 4) if thorough else (2, 3, 3))
+        es = FE_SIZED[w]
+        shape = rng.choice(sorted(FE_SHAPES))
+        e1, e2 = rng.choice(es)[0], rng.choice(es)[0]
+        if rng.random() < 0.5:  # the first right-hand side with a and b exchanged
+            e1 = re.sub(r"\b([ab])\b", lambda m: "b" if m.group(1) == "a" else "a", e1)
+        out.append((f"rsz{k}", fe_program(f"rsz{k}", w, shape, e1, e2)))
+    return out
+
+
 PROGRAMS = [
     "def p0(a: bool, b: bool) -> bool:\n    return a and b",
     "def p1(a: bool, b: bool, c: bool) -> bool:\n    return (a and b and c) or (not a and not b and not c)",
@@ -341,9 +750,10 @@ PROGRAMS = [
 ]
 
 
-def front_end_lists(ctx, lib, res):
-    """translate_ast outputs (no optimizer) for the pool; also checks that the per-expression simplify of
-    translate_ast is the identity on the list, as the model has it"""
+def front_end_lists(ctx, lib, res, programs=None):
+    """translate_ast outputs (no optimizer) for the pool (`programs`: sources or (name, source) pairs; default
+    PROGRAMS); also checks that the per-expression simplify of translate_ast is the identity on the list, as the
+    model has it"""
     Q = importlib.import_module("qlasskit")
     TA = importlib.import_module("qlasskit.ast2logic.t_ast")
     out = []
@@ -357,7 +767,10 @@ def front_end_lists(ctx, lib, res):
 
     TA.simplify_logic = rec
     try:
-        for src in PROGRAMS:
+        for src in (PROGRAMS if programs is None else programs):
+            name = None
+            if isinstance(src, tuple):
+                name, src = src
             calls.clear()
             try:
                 qf = Q.qlassf(src, to_compile=False, bool_optimizer=lib.BO.BoolOptimizerProfile([]))
@@ -384,7 +797,7 @@ def front_end_lists(ctx, lib, res):
                     else:
                         res.disagree(case, "translate_ast's simplify is no longer the identity (model: frontSimplify)",
                                      code=str(r), model=str(i))
-            out.append((src.split("(")[0][4:], exps))
+            out.append((name or src.split("(")[0][4:], exps))
     finally:
         TA.simplify_logic = orig
     return out
@@ -420,14 +833,21 @@ def same_tree(model_json, code_expr):
         return False
 
 
-def process_list(ctx, lib, res, tag, exps, reqs, checks, pend, profiles):
+def process_list(ctx, lib, res, tag, exps, reqs, checks, pend, profiles, only=None, stepwise=True):
+    """`only`: the steps / profiles (by name) this list goes through (None = all of them); `stepwise`: re-run
+    every profile one step at a time (blame + structural tie on the intermediate lists)"""
     dj0 = defs_json(exps)
-    if len(free_syms(dj0)) > MAX_FREE:
-        return
     wf = not reads_ret(dj0)
     quirks = active_quirks(ctx)
+    want = (lambda n: True) if only is None else (lambda n: n in only)  # noqa
+    # long or big lists: the per-definition tie (xreplace / custom_simplify_logic with the growing substitution map)
+    # and the evaluator cross-check are too much to ship to the model; the whole-list ties (merge, cse, profile) stay
+    light = len(exps) > 40 or (not stepwise and list_ops(exps) > BIG_OPS)
+    per_def_tie = not light
     # ---- single transformer steps
     for name in TRANSFORMERS:
+        if not want(name):
+            continue
         case = dict(step=name, defs=dj0)
         res.count(case, nontrivial=True, bucket=f"{tag}:{name}")
         try:
@@ -449,13 +869,14 @@ def process_list(ctx, lib, res, tag, exps, reqs, checks, pend, profiles):
             pend.append(Pending(case, bad[0], bad[1], dj1, q, idxs, [e1 for _, e1 in out]))
     # ---- merge_expressions
     case = dict(step="merge_expressions", defs=dj0)
-    res.count(case, bucket=f"{tag}:merge_expressions")
     lib.reset()
     merged = None
-    try:
-        merged = lib.run_steps(["merge_expressions"], exps)
-    except Exception as e:  # noqa
-        res.violation(case, f"merge_expressions raised {type(e).__name__}: {e}")
+    if want("merge_expressions"):
+        res.count(case, bucket=f"{tag}:merge_expressions")
+        try:
+            merged = lib.run_steps(["merge_expressions"], exps)
+        except Exception as e:  # noqa
+            res.violation(case, f"merge_expressions raised {type(e).__name__}: {e}")
     if merged is not None:
         dj1 = defs_json(merged)
         if wf:
@@ -465,14 +886,16 @@ def process_list(ctx, lib, res, tag, exps, reqs, checks, pend, profiles):
             if any(not is_ret(n) for n, _ in dj1):
                 res.violation(case, "merge_expressions kept an intermediate definition", code=dj1)
         table = []
-        for i, o in lib.simp_calls:
+        for i, o in unique_calls(lib.simp_calls):
             ij, oj = bexp.to_json(i), bexp.to_json(o)
             table.append([ij, oj])
             if not expr_equiv(ij, oj):
                 res.disagree(case, "sympy.simplify_logic broke the spec the theorems assume (SimpSound)", code=oj, model=ij)
         # per definition: xreplace and custom_simplify_logic
         emap = []
-        if len(lib.csl_top) == len(exps):
+        if len(lib.csl_top) == len(exps) and not per_def_tie:
+            pass  # long lists: the growing substitution map per definition is too much to ship; whole-list tie below
+        elif len(lib.csl_top) == len(exps):
             for (s, e), (ci, co) in zip(exps, lib.csl_top):
                 reqs.append(dict(op="c04.xreplace", e=bexp.to_json(e), emap=[[k, v] for k, v in emap]))
                 checks.append(("tree", dict(case, at=s.name, sub="xreplace"), len(reqs) - 1, ci, True))
@@ -487,14 +910,16 @@ def process_list(ctx, lib, res, tag, exps, reqs, checks, pend, profiles):
         checks.append(("merge", case, len(reqs) - 1, dj1, wf))
     # ---- apply_cse
     case = dict(step="apply_cse", defs=dj0)
-    res.count(case, bucket=f"{tag}:apply_cse")
     lib.reset()
-    try:
-        out = lib.run_steps(["apply_cse"], exps)
-        dj1 = defs_json(out)
-    except Exception as e:  # noqa
-        res.violation(case, f"apply_cse raised {type(e).__name__}: {e}")
-        out = None
+    out = None
+    if want("apply_cse"):
+        res.count(case, bucket=f"{tag}:apply_cse")
+        try:
+            out = lib.run_steps(["apply_cse"], exps)
+            dj1 = defs_json(out)
+        except Exception as e:  # noqa
+            res.violation(case, f"apply_cse raised {type(e).__name__}: {e}")
+            out = None
     if out is not None:
         if len(lib.cse_calls) != 1:
             res.disagree(case, "apply_cse no longer makes exactly one cse call", code=len(lib.cse_calls), model=1)
@@ -512,6 +937,8 @@ def process_list(ctx, lib, res, tag, exps, reqs, checks, pend, profiles):
                 pend.append(Pending(case, bad[0], bad[1], dj1, "cseHoistsOverBindings", [len(reqs) - 1], None))
     # ---- whole profiles
     for pname, prof, names in profiles:
+        if not want(pname):
+            continue
         case = dict(profile=pname, defs=dj0)
         res.count(case, bucket=f"{tag}:profile-{pname}")
         lib.reset()
@@ -521,7 +948,7 @@ def process_list(ctx, lib, res, tag, exps, reqs, checks, pend, profiles):
             res.violation(case, f"{pname}.apply raised {type(e).__name__}: {e}")
             continue
         djw = defs_json(whole)
-        simp_t = [[bexp.to_json(i), bexp.to_json(o)] for i, o in lib.simp_calls]
+        simp_t = [[bexp.to_json(i), bexp.to_json(o)] for i, o in unique_calls(lib.simp_calls)]
         cse_t = [[[bexp.to_json(e) for e in es], [[s.name, bexp.to_json(e)] for s, e in r[0]], [bexp.to_json(e) for e in r[1]]]
                  for es, r in lib.cse_calls]
         # stepwise, through the same step objects, one at a time
@@ -529,7 +956,7 @@ def process_list(ctx, lib, res, tag, exps, reqs, checks, pend, profiles):
         blamed, unexplained = [], None
         idxs, exact = [], []
         try:
-            for st in prof.steps:
+            for st in (prof.steps if stepwise else []):
                 nm = st.__name__ if hasattr(st, "__name__") else type(st).__name__
                 nxt = list(lib.BO.BoolOptimizerProfile([st]).apply(list(cur)))
                 b = check_property(defs_json(cur), defs_json(nxt)) if wf else None
@@ -551,7 +978,7 @@ def process_list(ctx, lib, res, tag, exps, reqs, checks, pend, profiles):
                 cur = nxt
         except Exception as e:  # noqa
             unexplained = f"stepwise run raised {type(e).__name__}: {e}"
-        if unexplained is None and defs_json(cur) != djw:
+        if stepwise and unexplained is None and defs_json(cur) != djw:
             res.disagree(case, "BoolOptimizerProfile.apply differs from applying its steps one after the other",
                          code=djw, model=defs_json(cur))
         bad = check_property(dj0, djw) if wf else None
@@ -564,8 +991,20 @@ def process_list(ctx, lib, res, tag, exps, reqs, checks, pend, profiles):
             checks.append(("profile", case, len(reqs) - 1, djw, bad is None))
             fb = free_syms(dj0)
             rets = sorted(set(ret_names(dj0)))
-            reqs.append(dict(op="c04.tt", defs=djw, inputs=fb, rets=rets))
-            checks.append(("tt", case, len(reqs) - 1, (ret_table(djw, fb, rets), free_syms(djw), ret_names(djw)), True))
+            rows = rows_for(fb)
+            if not light or len(exps) > 40:
+                reqs.append(dict(op="c04.tt", defs=djw, inputs=fb, rets=rets, **({} if rows is None else dict(rows=rows))))
+                checks.append(("tt", case, len(reqs) - 1, (ret_table(djw, fb, rets, rows), free_syms(djw), ret_names(djw)), True))
+
+
+def unique_calls(calls):
+    """the observed (argument, result) pairs without repetitions, in order of first occurrence"""
+    seen, out = set(), []
+    for i, o in calls:
+        if (i, o) not in seen:
+            seen.add((i, o))
+            out.append((i, o))
+    return out
 
 
 def cse_spec(dj, repl, red):
@@ -585,14 +1024,13 @@ def cse_spec(dj, repl, red):
         if any(v not in syms_es and v not in rn for v in bexp.syms_json(e)):
             return "a reduced expression reads a new symbol"
     inputs = list(syms_es)
-    if len(inputs) > 12:
-        return None
-    for k in range(2 ** len(inputs)):
-        env = {n: bool((k >> i) & 1) for i, n in enumerate(inputs)}
-        env2 = seq_eval(repl, env)
-        for e, r in zip(es, red):
-            if bexp.eval_json(e, env) != bexp.eval_json(r, env2):
-                return "not equivalent"
+    rows = rows_for(inputs)
+    nrows, env = seq_eval_bits([], inputs, rows)
+    _, env2 = seq_eval_bits(repl, inputs, rows)
+    full = (1 << nrows) - 1
+    for e, r in zip(es, red):
+        if eval_bits(e, env, full) != eval_bits(r, env2, full):
+            return "not equivalent"
     return None
 
 
@@ -636,7 +1074,7 @@ def settle(ctx, res, reqs, checks, pend):
                     res.disagree(case, "merge_expressions: new free symbol in model or code", code=code, model=mo)
                 else:
                     inputs = fb + [v for v in new if v not in fb]
-                    if len(inputs) <= 12 and positional_table(mo, inputs) != positional_table(code, inputs):
+                    if positional_table(mo, inputs) != positional_table(code, inputs):
                         res.disagree(case, "model and code differ (functionally) on merge_expressions", code=code, model=mo)
         elif kind == "cse":
             if rep["out"] != code:
@@ -649,7 +1087,7 @@ def settle(ctx, res, reqs, checks, pend):
             rets = sorted(set(ret_names(dj0)))
             if ret_names(mo) != ret_names(code):
                 res.disagree(case, "model and code differ on the return symbols a profile keeps", code=code, model=mo)
-            elif flag and ret_table(rep["out_fixed"], fb, rets) != ret_table(code, fb, rets):
+            elif flag and ret_table(rep["out_fixed"], fb, rets, rows_for(fb)) != ret_table(code, fb, rets, rows_for(fb)):
                 res.disagree(case, "model and code differ (functionally) on a whole profile", code=code, model=mo)
         elif kind == "tt":
             tt, fr, rn = code
@@ -676,15 +1114,67 @@ def settle(ctx, res, reqs, checks, pend):
 
 def positional_table(dj, inputs):
     """value of every definition, in list order, on every assignment"""
-    rows = []
-    for k in range(2 ** len(inputs)):
-        env = {n: bool((k >> i) & 1) for i, n in enumerate(inputs)}
-        row = []
+    nrows, masks = input_masks(len(inputs), rows_for(inputs))
+    full = (1 << nrows) - 1
+    env = dict(zip(inputs, masks))
+    cols = []
+    for n, e in dj:
+        env[n] = eval_bits(e, env, full)
+        cols.append(env[n])
+    return cols
+
+
+def describe_lists(sized):
+    """the input distribution of the size slice, per family: how many lists, how often a name is bound, the sizes
+    (operations, harness's own count) of the bound expressions, numbers of definitions and of free symbols"""
+    edges = [0, 1, 8, 64, 300, 512, 600, 1200, 2500]
+
+    def bucket(v, edges_):
+        lab = f">{edges_[-1]}"
+        for lo in edges_:
+            if v <= lo:
+                lab = f"<={lo}"
+                break
+        return lab
+
+    out = {}
+    for fam, exps, only, stepwise in sized:
+        d = out.setdefault(fam, dict(lists=0, through_every_step=0, list_steps_and_default_profile_only=0,
+                                     times_one_name_is_bound={}, definition_ops={}, definitions={}, free_symbols={},
+                                     max_definition_ops=0, total_ops=0, inlined_ops={}, max_inlined_ops=0))
+        dj = defs_json(exps)
+        names = [n for n, _ in dj]
+        d["lists"] += 1
+        d["through_every_step" if only is None else "list_steps_and_default_profile_only"] += 1
+        k = str(max(names.count(n) for n in names))
+        d["times_one_name_is_bound"][k] = d["times_one_name_is_bound"].get(k, 0) + 1
+        for _, e in dj:
+            o = ops_json(e)
+            b = bucket(o, edges)
+            d["definition_ops"][b] = d["definition_ops"].get(b, 0) + 1
+            d["max_definition_ops"] = max(d["max_definition_ops"], o)
+            d["total_ops"] += o
+        inl = {}  # operations of every name's expression once the intermediates it reads are inlined (no simplification)
         for n, e in dj:
-            env[n] = bexp.eval_json(e, env)
-            row.append("1" if env[n] else "0")
-        rows.append("".join(row))
-    return "|".join(rows)
+            inl[n] = ops_json(e) + sum(inl.get(v, 0) for v in sym_occurrences(e))
+            b = bucket(inl[n], edges)
+            d["inlined_ops"][b] = d["inlined_ops"].get(b, 0) + 1
+            d["max_inlined_ops"] = max(d["max_inlined_ops"], inl[n])
+        b = bucket(len(dj), [1, 2, 10, 50, 100, 300])
+        d["definitions"][b] = d["definitions"].get(b, 0) + 1
+        nf = str(len(free_syms(dj)))
+        d["free_symbols"][nf] = d["free_symbols"].get(nf, 0) + 1
+    num = lambda kv: (kv[0][0] == ">", int(kv[0].lstrip("<=>")))  # noqa
+    for d in out.values():
+        for k in ("times_one_name_is_bound", "definition_ops", "inlined_ops", "definitions", "free_symbols"):
+            d[k] = dict(sorted(d[k].items(), key=num))
+    return out
+
+
+def sym_occurrences(j):
+    if j[0] == "sym":
+        return [j[1]]
+    return [v for x in j[1:] if isinstance(x, list) for v in sym_occurrences(x)]
 
 
 # ----------------------------------------------------------------------------- entry points
@@ -709,7 +1199,8 @@ def shipped_profiles(ctx, lib, res):
 def run(ctx: Ctx) -> Result:
     res = Result("C04")
     res.rule = ("a case = one definition list through one step or one whole profile; non-trivial = every case "
-                "(each runs the real code and the oracle on all assignments)")
+                f"(each runs the real code and the oracle on all assignments of up to {FULL_MAX} free symbols, beyond on "
+                f"{N_SAMPLED} pseudo-random assignments plus all-false, all-true, every one-hot and one-cold one)")
     import sympy
     import sympy.logic.boolalg as B
 
@@ -717,29 +1208,64 @@ def run(ctx: Ctx) -> Result:
     rng = ctx.rng
     with Lib() as lib:
         profiles = shipped_profiles(ctx, lib, res)
-        lists = [("sys", l) for l in systematic(B, S)]
-        lists += [("front:" + n, l) for n, l in front_end_lists(ctx, lib, res)]
+        head = [("sys", l) for l in systematic(B, S)]
+        head += [("front:" + n, l) for n, l in front_end_lists(ctx, lib, res)]
+        rand = []
         n_rand = 1500 if ctx.thorough else 160
         for k in range(n_rand):
             hint = 2 if k % 3 else 3
-            lists.append(("rand", gen_list(rng, B, S, hint)))
+            rand.append(("rand", gen_list(rng, B, S, hint)))
         n_rule = 1200 if ctx.thorough else 150
         syms = [S(x) for x in "abcd"]
         for k in range(n_rule):
             # single return, deeper expressions, rich in rule shapes
-            lists.append(("randexpr", [(S("_ret"), gen_expr(rng, B, syms[: rng.randint(2, 4)], 3 if k % 2 else 4))]))
+            rand.append(("randexpr", [(S("_ret"), gen_expr(rng, B, syms[: rng.randint(2, 4)], 3 if k % 2 else 4))]))
+
+        def reduced(fam, exps):
+            big = list_ops(exps) > BIG_OPS
+            return (fam, exps, LIST_ONLY if big else ALL_STEPS, not big)
+
+        # size thresholds x re-binding: systematic slice (same for every seed), then randomised variants
+        sized = list(size_slice(B, S, ctx.thorough))
+        sized += [reduced("frontsz", exps) for _, exps in front_end_lists(ctx, lib, res, size_programs(ctx.thorough))]
+        rsized = random_size_lists(rng, B, S, ctx.thorough)
+        rsized += [reduced("rfrontsz", exps) for _, exps in front_end_lists(ctx, lib, res, random_size_programs(rng, ctx.thorough))]
+        res.extra["size_threshold_slice"] = describe_lists(sized + rsized)
+        # small lists first: the first failing input reported is a small one
+        sized = [x for _, x in sorted(enumerate(sized), key=lambda ix: (list_ops(ix[1][1]), ix[0]))]
+        # order: systematic slices, then the random parts
+        lists = [(tag, exps, ALL_STEPS, True) for tag, exps in head] + sized
+        lists += [(tag, exps, ALL_STEPS, True) for tag, exps in rand] + rsized
         reqs, checks, pend = [], [], []
-        for tag, exps in lists:
-            process_list(ctx, lib, res, tag.split(":")[0], exps, reqs, checks, pend, profiles)
-            if len(reqs) > 4000:
+        volume = 0
+        spent = {}  # seconds per family (QV_C04_TIMING=1 prints them)
+        for tag, exps, only, stepwise in lists:
+            t0 = time.time()
+            process_list(ctx, lib, res, tag.split(":")[0], exps, reqs, checks, pend, profiles, only=only, stepwise=stepwise)
+            volume += list_ops(exps) if not stepwise else 0
+            spent[tag.split(":")[0]] = spent.get(tag.split(":")[0], 0.0) + time.time() - t0
+            if len(reqs) > 4000 or volume > 20000:
+                t0 = time.time()
                 settle(ctx, res, reqs, checks, pend)
+                spent["model"] = spent.get("model", 0.0) + time.time() - t0
                 reqs, checks, pend = [], [], []
+                volume = 0
+                if os.environ.get("QV_C04_TIMING"):
+                    ctx.log("[c04] seconds so far: " + json.dumps({k: round(v, 1) for k, v in spent.items()}))
+        t0 = time.time()
         settle(ctx, res, reqs, checks, pend)
+        spent["model"] = spent.get("model", 0.0) + time.time() - t0
+        if os.environ.get("QV_C04_TIMING"):
+            ctx.log("[c04] seconds per family: " + json.dumps({k: round(v, 1) for k, v in spent.items()}))
     res.assumptions.append(
         "sympy's constructors, simplify_logic and cse are parameters of the model; their specs (Kernel.Sound, SimpSound, "
         "CseSpec) are hypotheses of the theorems and are checked on every call observed in the run")
     res.notes.append("well-formed list = no right-hand side reads a `_ret*` symbol (RetsNotRead); lists are run through each of the "
                      "7 steps alone and through defaultOptimizer / fastOptimizer")
+    res.notes.append(f"size-threshold x re-binding slice (coverage.size_threshold_slice): ladder {list(LADDER)} operations; lists of "
+                     f"more than {BIG_OPS} operations whose point is the re-binding go through merge_expressions, apply_cse and "
+                     "defaultOptimizer only (the transformers and fastOptimizer see every ladder size in the families size1 and "
+                     "the small lists), without the step-by-step re-run and the per-definition model tie")
     return res
 
 
